@@ -36,6 +36,11 @@ type RPCServer struct {
 	ln  net.Listener
 	srv *http.Server
 
+	// Hook, when set, runs before a request is answered, with the method and
+	// how often it has been called (this call included): a harness can change
+	// the chain at a chosen point of a client's procedure.
+	Hook func(method string, n int)
+
 	mu      sync.Mutex
 	Calls   map[string]int // per method
 	Unknown []string       // methods asked for that the server does not know
@@ -117,7 +122,11 @@ func (s *RPCServer) handle(w http.ResponseWriter, r *http.Request) {
 	}
 	s.mu.Lock()
 	s.Calls[req.Method]++
+	n, hook := s.Calls[req.Method], s.Hook
 	s.mu.Unlock()
+	if hook != nil {
+		hook(req.Method, n)
+	}
 	res, e := s.answer(&req)
 	out, _ := json.Marshal(rpcResp{Result: res, Error: e, ID: req.ID})
 	w.Header().Set("Content-Type", "application/json")
